@@ -486,3 +486,17 @@ func HostAccept(r *Run, cmd plugins.Cmd, id uint32) {
 		})
 	}
 }
+
+// HostDialEcho dials brokered id from the host and runs one echo / ping.
+func HostDialEcho(cmd plugins.Cmd, id uint32, size int) (string, error) {
+	switch c := cmd.(type) {
+	case *plugins.RPCClient:
+		conn, err := c.Broker.Dial(id)
+		if err != nil {
+			return "", err
+		}
+		defer conn.Close()
+		return plugins.EchoOnce(conn, id, size)
+	}
+	return HostDialPing(cmd, id)
+}
